@@ -8,4 +8,6 @@ func EOFRead() {}
 
 func Token() {}
 
+func Walk() {}
+
 func Exit(code int) {}
